@@ -140,7 +140,8 @@ def setup_loop(ex, n, L, S):
                 raise Unsupported(f'loop invariant of PRBS names the local `{name}`, which no longer exists')
         lf = _bv(env['lfsr'])
         idx = tonum(env['index'])
-        arr = env['prbs']
+        arr_ = env['prbs']
+        arr = Arr(arr_.shape, arr_.elem, arr_.kind)      # contents as of now (the array object is mutated later)
         conj = [idx >= 0, idx <= Lz, lf == S(idx), lf != 0, z3.ULT(lf, z3.BitVecVal(2 ** n, W)),
                 z3.ULT(lf, z3.BitVecVal(2 ** 62, W))]
         foralls = [lambda k: z3.Implies(z3.And(k >= 0, k < idx), _bv(arr.elem((k,))) == (S(k) & 1))]
